@@ -117,6 +117,22 @@ ErrEnqueue(k, code) ==
   /\ IF open[ConnOf[k]] THEN Room(ConnOf[k]) /\ queue' = Enq(ConnOf[k], [t |-> "err", k |-> k, code |-> code]) ELSE UNCHANGED queue
   /\ UNCHANGED <<cap, permits, sub, table, open, wire, path>>
 
+(* For the concurrent trace spec every *answer* is a step of its own: the task that decided it (refusal, unsubscribe result)  *)
+(* may be descheduled before it hands the message to the connection queue, so other messages can overtake it.             *)
+SubscribeRefuseNoEnq(k) ==
+  /\ sub[k].st = "idle" /\ permits[ConnOf[k]] = 0
+  /\ sub' = [sub EXCEPT ![k].st = "refused"]
+  /\ UNCHANGED <<cap, permits, table, open, queue, wire, path>>
+UnsubNoEnq(c, k) ==
+  /\ open[c]
+  /\ LET hit == k \in table /\ ConnOf[k] = c IN
+     /\ table' = IF hit THEN table \ {k} ELSE table
+     /\ sub' = IF hit THEN [sub EXCEPT ![k].unsub = TRUE] ELSE sub
+  /\ UNCHANGED <<cap, permits, open, queue, wire, path>>
+ReplyEnqueue(c, m) ==
+  /\ IF open[c] THEN Room(c) /\ queue' = Enq(c, m) ELSE UNCHANGED queue
+  /\ UNCHANGED <<cap, permits, sub, table, open, wire, path>>
+
 (* ---- SubscriptionSink clones (subscription.rs:270-285, Drop :414-420) ---- *)
 Closed(k) == sub[k].unsub \/ ~open[ConnOf[k]] \/ (k \notin table /\ sub[k].st = "accepted")
 SinkClone(k) ==
